@@ -72,7 +72,10 @@ def rule_a(ctx):
                 if rv is not None:
                     RETURNS.append((cname, dofs, rv, sum(sizes.values())))
             except Raised as e:
-                ctx.ob(R, f.qname, f"{label}: accepted", False, f"raises {e.name} at `{norm(e.node)[:60] if e.node is not None else ''}`", e.node or f.node)
+                # only a `raise` statement of the code is a refusal; an exception of the fold's own making (an attribute the stand-in lacks) is not
+                explicit = isinstance(e.node, ast.Raise) or e.name != "AttributeError"   # TypeError / KeyError / IndexError on concrete values are Python's own semantics
+                ctx.ob(R, f.qname, f"{label}: accepted", False, f"raises {e.name} at `{norm(e.node)[:60] if e.node is not None else ''}`" + ("" if explicit else " -- raised by the fold on a stand-in, analysable form not found"),
+                       e.node or f.node, evidence=explicit)
                 continue
             except Refuse as e:
                 raise AnalysisError(f"{f.qname} outside the folding language for dofs={dofs!r}: {e}")
@@ -805,8 +808,10 @@ def rule_j(ctx):
             and f"np.unique({ms_.group('x')}," in ms_.group("i"):
         idx = ms_.group("i")
         ctx.ob(R, f.qname, "the stored supports are in the caller's order", True, "", f.node)
+        from ..fold import mentions_unknown
         ctx.ob(R, f.qname, "the values are selected with the same first-occurrence indices as the supports", tv == f"V[{idx}]",
-               f"supports: {ts[:120]}; values: {tv[:120]} -- values and supports are no longer paired", f.node, evidence=True)
+               f"supports: {ts[:120]}; values: {tv[:120]} -- values and supports are no longer paired", f.node,
+               evidence=tv.startswith("V[") and tv.endswith("]") and "unknown" not in tv and not mentions_unknown(me.fields.get("values")))  # selected, with other indices
         ctx.floor(R, 1)
         return
     if ms_ and _re.fullmatch(r"np\.unique\(.*\)\[1\]", ms_.group("i")):
